@@ -1,0 +1,47 @@
+//go:build verif
+
+// Contracts for gzv (contract-based deductive verification, /verif). Comment-only file.
+package threading
+
+// ---------------------------------------------------------------------------------------------
+// C05 TaskRunner: a slot of limitChan is taken before the goroutine starts and given back exactly once when the task
+// ends, by return or by panic (rescue.Recover runs the cleanup on both exits); the wait group is balanced the same way.
+// ---------------------------------------------------------------------------------------------
+//@ spec trOK(rp *TaskRunner) bool = chanCap(rp.limitChan) >= 1 && 0 <= chanLen(rp.limitChan) && chanLen(rp.limitChan) <= chanCap(rp.limitChan)
+
+//@ func NewTaskRunner
+//@   property C05
+//@   requires concurrency >= 1
+//@   ensures  fresh(result) && chanCap(result.limitChan) == concurrency && chanLen(result.limitChan) == 0
+//@   allocates
+//@   modifies nothing
+
+//@ func (rp *TaskRunner) Schedule
+//@   property C05
+//@   requires chanCap(rp.limitChan) >= 1
+//@   ensures  1 <= chanLen(rp.limitChan) && chanLen(rp.limitChan) <= chanCap(rp.limitChan)
+//@   ensures  wg(rp.waitGroup) == old(wg(rp.waitGroup)) + 1
+//@   modifies chanLen(rp.limitChan), wg(rp.waitGroup)
+
+//@ func (rp *TaskRunner) Schedule closure 0
+//@   property C05
+//@   flag callbacks_noheap private_channels
+//@   requires trOK(rp) && chanLen(rp.limitChan) >= 1
+//@   ensures  calls(task) == old(calls(task)) + 1
+//@   ensures  chanLen(rp.limitChan) == old(chanLen(rp.limitChan)) - 1 && wg(rp.waitGroup) == old(wg(rp.waitGroup)) - 1
+//@   ensures_panic false
+
+//@ func (rp *TaskRunner) ScheduleImmediately
+//@   property C05
+//@   requires trOK(rp)
+//@   ensures  implies(result != nil, result == ErrTaskRunnerBusy && old(chanLen(rp.limitChan)) >= chanCap(rp.limitChan) && chanLen(rp.limitChan) == old(chanLen(rp.limitChan)) && wg(rp.waitGroup) == old(wg(rp.waitGroup)))
+//@   ensures  implies(result == nil, old(chanLen(rp.limitChan)) < chanCap(rp.limitChan) && chanLen(rp.limitChan) == old(chanLen(rp.limitChan)) + 1 && wg(rp.waitGroup) == old(wg(rp.waitGroup)) + 1)
+//@   modifies chanLen(rp.limitChan), wg(rp.waitGroup)
+
+//@ func (rp *TaskRunner) ScheduleImmediately closure 0
+//@   property C05
+//@   flag callbacks_noheap private_channels
+//@   requires trOK(rp) && chanLen(rp.limitChan) >= 1
+//@   ensures  calls(task) == old(calls(task)) + 1
+//@   ensures  chanLen(rp.limitChan) == old(chanLen(rp.limitChan)) - 1 && wg(rp.waitGroup) == old(wg(rp.waitGroup)) - 1
+//@   ensures_panic false
